@@ -349,6 +349,10 @@ STR_SHAPES = [
     ("inkey", "INKEY$"),
     ("string", 'STRING$( 2 , "Q" )'),
     ("chr", "CHR$( 65 )"),
+    ("mid3", "MID$( V$ , 1 , 1 )"),
+    ("mid2", "MID$( V$ , 2 )"),
+    ("right", "RIGHT$( V$ , 1 )"),
+    ("mid_conv", "MID$( V$ , INT( V ) , 1 )"),
 ]
 
 
@@ -369,10 +373,11 @@ def slots(template_body):
     return re.findall(r"\{([ns])\}", template_body)
 
 
-def template_program(body, after, prelude=True):
+def template_program(body, after, prelude=True, before=()):
     lines = []
     if prelude:
         lines += ["DIM M( 12 ) , N$( 5 ) , Q( 3 , 3 )", 'V = 3 : W = 4 : V$ = "AB" : A = 1']
+    lines += list(before)
     lines.append(body)
     lines += list(after)
     return program_for(lines, start=10, step=10)
